@@ -145,6 +145,20 @@ fn record(seed: u64, thorough: bool, shards: usize, prefix: &str) -> Value {
             emit(Style::new().bg_color(Some(*c)));
             emit(Style::new().underline_color(Some(*c)).underline());
         }
+        // every pair of named colours in the two slots (a flag shared by both slots shows only in pairs of different brightness),
+        // and the SAME colour value in several slots (no slot may be derived from another)
+        for f in ANSI.iter() {
+            for b in ANSI.iter() {
+                emit(Style::new().fg_color(Some(Color::Ansi(*f))).bg_color(Some(Color::Ansi(*b))));
+            }
+        }
+        for (k, c) in cols.iter().enumerate() {
+            if thorough || k % 5 == (seed % 5) as usize {
+                emit(Style::new().fg_color(Some(*c)).underline_color(Some(*c)).underline());
+                emit(Style::new().fg_color(Some(*c)).bg_color(Some(*c)).underline_color(Some(*c)).effects(Effects::UNDERLINE | Effects::BOLD));
+                emit(Style::new().bg_color(Some(*c)).underline_color(Some(*c)).effects(Effects::CURLY_UNDERLINE));
+            }
+        }
         for bits in 0..4096u16 {
             if !thorough && !(bits.count_ones() <= 2 || bits % 8 == (seed % 8) as u16) {
                 continue;
